@@ -191,6 +191,7 @@ class Ex(object):
         self.steps = 0
         self.hooks = {}               # fname -> callable(ex, f, args) called at entry (instrumentation)
         self.called = set()
+        self.fp_log = None            # optional list collecting every FP constant decoded: (function, type, exact value)
 
     # ------------------------------------------------------------------------------------------
     # state initialisation
@@ -285,6 +286,8 @@ class Ex(object):
 
     def fpconst(self, bits, ty):
         v, kind = tm.decode_fp(bits, ty)
+        if self.fp_log is not None and v is not None:
+            self.fp_log.append((self.cur_fn, ty, v))
         if v is None:
             return tm.sym('FP_' + kind.replace('-', 'neg'), 'R')
         if self.snap_mode == 'exact':
@@ -446,6 +449,13 @@ class Ex(object):
             b = self.schedule[n]
         else:
             b = getattr(self, 'default_decision', True)
+            if callable(b):
+                forced = b(cond)
+                if forced is not None:
+                    # directed exploration: this condition is forced, the other branch is deliberately not explored
+                    st.pc.append((cond, forced))
+                    return forced
+                b = True
             self.pending.append(self.decisions + [not b])
         self.decisions.append(b)
         st.pc.append((cond, b))
